@@ -879,5 +879,5 @@ SUBCHECKS = [
     Sub('grid-snake', check, enum=enum_snake, classify=classify, nontrivial=nontrivial, shards=(8, 16),
         note='snake lengths 0..1000 after 0/1/64/126/127 prefix bytes and 0..4 consumed references'),
     Sub('sequences-random', check, strategy=strat_sequences, classify=classify, nontrivial=nontrivial,
-        n=(12000, 200000), shards=(16, 32)),
+        n=(8000, 200000), shards=(16, 32)),
 ]
